@@ -6,6 +6,8 @@
 
     new                              -> ok
     read <0|1> :line :line …         -> ok <state> | err:<class>      (append flag first)
+    readt <0|1> :text                -> ok <state> | err:<class>      (the whole text as one token: `readText`, the model
+                                                                       splits it into lines itself, at %0a only)
     flatten :style <a|none> <b|none> -> ok <table> | err:<class>
     scan :line …                     -> headers/footers of the single pass (evidence/debugging)
     state                            -> ok <state>
@@ -85,6 +87,13 @@ def handleC19 (w : World) (toks : List String) : World × String :=
     match parseBool? app, rest.mapM decodeTok with
     | some a, some lines =>
       match readLog st a lines with
+      | .ok st' => ({ w with log := st' }, "ok " ++ showState st')
+      | .error e => (w, err e.name)
+    | _, _ => (w, err "format")
+  | ["readt", app, text] =>
+    match parseBool? app, decodeTok text with
+    | some a, some t =>
+      match readText st a t with
       | .ok st' => ({ w with log := st' }, "ok " ++ showState st')
       | .error e => (w, err e.name)
     | _, _ => (w, err "format")
